@@ -754,3 +754,858 @@ Proof.
   - vm_compute. reflexivity.
   - eexists. split; [vm_compute; reflexivity|split; vm_compute; reflexivity].
 Qed.
+
+(* =====================================================================================
+   passes that register objects while visiting (visit_schema_st)
+   ===================================================================================== *)
+Definition st_keys_le (st st' : list (string * object)) : Prop := forall k, objs_has st k = true -> objs_has st' k = true.
+Definition ref_good (G : list (string * string)) (pkg : string) (st : list (string * object)) (r : string * string) : Prop :=
+  In r G \/ (fst r = pkg /\ objs_has st (snd r) = true).
+
+Lemma ref_good_mono G pkg st st' r : st_keys_le st st' -> ref_good G pkg st r -> ref_good G pkg st' r.
+Proof. intros Hle [H|[H1 H2]]; [left; exact H|right; split; [exact H1|apply Hle; exact H2]]. Qed.
+
+Lemma vrel_refs_st (f : list (string * object) -> ty -> res (ty * list (string * object))) G pkg (Q : list (string * object) -> Prop) :
+  (forall st a d t1 st1, f st (TDisj a d) = Ok (t1, st1) -> all_refs_in G (TDisj a d) -> Q st ->
+       st_keys_le st st1 /\ Q st1 /\ forall r, In r (all_refs t1) -> ref_good G pkg st1 r) ->
+  forall st t t' st', vrel f st t t' st' -> all_refs_in G t -> Q st ->
+       st_keys_le st st' /\ Q st' /\ forall r, In r (all_refs t') -> ref_good G pkg st' r.
+Proof.
+  intros Hf.
+  assert ((forall st t t' st', vrel f st t t' st' -> all_refs_in G t -> Q st ->
+             st_keys_le st st' /\ Q st' /\ forall r, In r (all_refs t') -> ref_good G pkg st' r) /\
+          (forall st fs fs' st', vrel_fields f st fs fs' st' ->
+             (forall r, In r (flat_map (fun x => all_refs (f_type x)) fs) -> In r G) -> Q st ->
+             st_keys_le st st' /\ Q st' /\ forall r, In r (flat_map (fun x => all_refs (f_type x)) fs') -> ref_good G pkg st' r) /\
+          (forall st bs bs' st', vrel_list f st bs bs' st' ->
+             (forall r, In r (flat_map all_refs bs) -> In r G) -> Q st ->
+             st_keys_le st st' /\ Q st' /\ forall r, In r (flat_map all_refs bs') -> ref_good G pkg st' r)) as X.
+  { apply vrel_mutind; unfold all_refs_in; simpl.
+    - intros st a v v' st' _ IH H HQ. exact (IH H HQ).
+    - intros st a i v i' v' st1 st2 _ IHi _ IHv H HQ.
+      destruct (IHi (fun x Hx => H x (in_or_app _ _ _ (or_introl Hx))) HQ) as [L1 [Q1 R1]].
+      destruct (IHv (fun x Hx => H x (in_or_app _ _ _ (or_intror Hx))) Q1) as [L2 [Q2 R2]].
+      split; [intros k Hk; apply L2; apply L1; exact Hk|split; [exact Q2|]].
+      intros r Hr. apply in_app_or in Hr. destruct Hr as [Hr|Hr]; [eapply ref_good_mono; [exact L2|apply R1; exact Hr]|apply R2; exact Hr].
+    - intros st a dh fs fs' st' _ IH H HQ.
+      destruct (IH (fun x Hx => H x (in_or_app _ _ _ (or_intror Hx))) HQ) as [L1 [Q1 R1]]. split; [exact L1|split; [exact Q1|]].
+      intros r Hr. apply in_app_or in Hr. destruct Hr as [Hr|Hr]; [left; apply H; apply in_or_app; left; exact Hr|apply R1; exact Hr].
+    - intros st a bs bs' st' _ IH H HQ. exact (IH H HQ).
+    - intros st a d t' st' Hd H HQ. exact (Hf _ _ _ _ _ Hd H HQ).
+    - intros st t _ H HQ. split; [intros k Hk; exact Hk|split; [exact HQ|intros r Hr; left; apply H; exact Hr]].
+    - intros st _ HQ. split; [intros k Hk; exact Hk|split; [exact HQ|intros r []]].
+    - intros st f0 t' st1 r0 r' st2 _ IHt _ IHr H HQ.
+      destruct (IHt (fun x Hx => H x (in_or_app _ _ _ (or_introl Hx))) HQ) as [L1 [Q1 R1]].
+      destruct (IHr (fun x Hx => H x (in_or_app _ _ _ (or_intror Hx))) Q1) as [L2 [Q2 R2]].
+      split; [intros k Hk; apply L2; apply L1; exact Hk|split; [exact Q2|]].
+      intros r Hr. apply in_app_or in Hr. destruct Hr as [Hr|Hr]; [eapply ref_good_mono; [exact L2|apply R1; exact Hr]|apply R2; exact Hr].
+    - intros st _ HQ. split; [intros k Hk; exact Hk|split; [exact HQ|intros r []]].
+    - intros st b b' st1 r0 r' st2 _ IHb _ IHr H HQ.
+      destruct (IHb (fun x Hx => H x (in_or_app _ _ _ (or_introl Hx))) HQ) as [L1 [Q1 R1]].
+      destruct (IHr (fun x Hx => H x (in_or_app _ _ _ (or_intror Hx))) Q1) as [L2 [Q2 R2]].
+      split; [intros k Hk; apply L2; apply L1; exact Hk|split; [exact Q2|]].
+      intros r Hr. apply in_app_or in Hr. destruct Hr as [Hr|Hr]; [eapply ref_good_mono; [exact L2|apply R1; exact Hr]|apply R2; exact Hr]. }
+  exact (proj1 X).
+Qed.
+
+(* the schema-level step for visit_schema_st, for any on_type with that specification *)
+Definition state_ok (G : list (string * string)) (pkg : string) (st : list (string * object)) : Prop :=
+  forall k o, In (k, o) st -> k = o_name o /\ o_selfpkg o = pkg /\ all_refs_in G (o_type o).
+
+Lemma visit_schema_st_step (on_type : list (string * object) -> ty -> res (ty * list (string * object))) (CT : ty -> Prop) s s' :
+  (forall ko, In ko (s_objects s) -> fst ko = o_name (snd ko) /\ o_selfpkg (snd ko) = s_pkg s) ->
+  CT (s_entrytype s) -> (forall ko, In ko (s_objects s) -> CT (o_type (snd ko))) ->
+  (forall st t t' st', CT t -> on_type st t = Ok (t', st') -> all_refs_in (schema_refs s) t -> state_ok (schema_refs s) (s_pkg s) st ->
+       st_keys_le st st' /\ state_ok (schema_refs s) (s_pkg s) st' /\
+       forall r, In r (all_refs t') -> ref_good (schema_refs s) (s_pkg s) st' r) ->
+  visit_schema_st [] on_type (map snd) s = Ok s' -> step_ok s s'.
+Proof.
+  intros Hw HCe HCo Hon H. rewrite visit_schema_st_eq in H. set (G := schema_refs s) in *. set (pkg := s_pkg s) in *.
+  destruct (on_type [] (s_entrytype s)) as [[et st0]| | |] eqn:E0; simpl in H; try discriminate.
+  assert (all_refs_in G (s_entrytype s)) as Hge by (intros r Hr; unfold G, schema_refs; apply in_or_app; left; exact Hr).
+  assert (forall ko, In ko (s_objects s) -> all_refs_in G (o_type (snd ko))) as Hgo.
+  { intros ko Hko r Hr. unfold G, schema_refs. apply in_or_app. right. apply in_flat_map. exists ko. split; assumption. }
+  destruct (Hon _ _ _ _ HCe E0 Hge (fun k o (Hin : In (k, o) []) => match Hin with end)) as [_ [Q0 R0]].
+  assert (forall l acc st objs st1, vst_loop on_type l acc st = Ok (objs, st1) -> (forall ko, In ko l -> In ko (s_objects s)) -> state_ok G pkg st ->
+            st_keys_le st st1 /\ state_ok G pkg st1 /\
+            (forall k, objs_has acc k = true -> objs_has objs k = true) /\
+            (forall ko, In ko l -> objs_has objs (o_name (snd ko)) = true) /\
+            (forall k o', In (k, o') objs -> In (k, o') acc \/
+               (k = o_name o' /\ o_selfpkg o' = pkg /\ forall r, In r (all_refs (o_type o')) -> ref_good G pkg st1 r))) as GL.
+  { induction l as [|[k0 o0] r IH]; intros acc st objs st1 Hl Hsub HQ; simpl in Hl.
+    - inversion Hl; subst. split; [intros k Hk; exact Hk|split; [exact HQ|split; [auto|split; [intros ko []|intros k o' Hin; left; exact Hin]]]].
+    - destruct (on_type st (o_type o0)) as [[t1 sa]| | |] eqn:E; simpl in Hl; try discriminate.
+      destruct (Hon _ _ _ _ (HCo (k0, o0) (Hsub _ (or_introl eq_refl))) E (Hgo (k0, o0) (Hsub _ (or_introl eq_refl))) HQ) as [L1 [Q1 R1]].
+      destruct (IH _ _ _ _ Hl (fun ko Hko => Hsub ko (or_intror Hko)) Q1) as [L2 [Q2 [A [B C]]]].
+      split; [intros k Hk; apply L2; apply L1; exact Hk|split; [exact Q2|split; [|split]]].
+      + intros k Hk. apply A. unfold add_object. apply objs_set_has. left. exact Hk.
+      + intros ko [<-|Hko]; [apply A; unfold add_object; apply objs_set_has; right; reflexivity|apply B; exact Hko].
+      + intros k o' Hin. destruct (C k o' Hin) as [Hx|Hx]; [|right; exact Hx].
+        unfold add_object in Hx. destruct (objs_set_in_kv _ _ _ _ _ Hx) as [Y|[Y1 Y2]]; [left; exact Y|]. right. subst. simpl.
+        split; [reflexivity|split; [exact (proj2 (Hw (k0, o0) (Hsub _ (or_introl eq_refl))))|]].
+        intros r0 Hr0. eapply ref_good_mono; [exact L2|apply R1; exact Hr0]. }
+  destruct (vst_loop on_type (s_objects s) [] st0) as [[objs st1]| | |] eqn:El; simpl in H; try discriminate. inversion H; subst. clear H.
+  destruct (GL _ _ _ _ _ El (fun ko Hko => Hko) Q0) as [L [Q1 [_ [B C]]]].
+  split; [reflexivity|split; [reflexivity|]]. simpl. split; [|split].
+  - intros k Hk. apply objs_has_in' in Hk. destruct Hk as [o Hin]. apply fold_add_has. left.
+    destruct (Hw (k, o) Hin) as [E _]. simpl in E. rewrite E. exact (B (k, o) Hin).
+  - intros [k o'] Hin. simpl. apply fold_add_object_in_kv in Hin. destruct Hin as [Hin|[Hin Hk]].
+    + destruct (C k o' Hin) as [[]|[Hk [Hp _]]]. split; assumption.
+    + apply in_map_iff in Hin. destruct Hin as [[k1 o1] [E Hin]]. simpl in E. subst o1. split; [exact Hk|exact (proj1 (proj2 (Q1 k1 o' Hin)))].
+  - assert (forall r, ref_good G pkg st1 r -> In r (schema_refs s) \/ (fst r = s_pkg s /\ objs_has (fold_left add_object (map snd st1) objs) (snd r) = true)) as Hfin.
+    { intros r [Hr|[Hp Hh]]; [left; exact Hr|right; split; [exact Hp|]]. apply fold_add_has. right.
+      apply objs_has_in' in Hh. destruct Hh as [o Hin]. exists o. split; [apply in_map_iff; exists (snd r, o); split; [reflexivity|exact Hin]|].
+      symmetry. exact (proj1 (Q1 _ _ Hin)). }
+    intros r Hr. unfold schema_refs in Hr. simpl in Hr. apply in_app_or in Hr. destruct Hr as [Hr|Hr].
+    + apply Hfin. eapply ref_good_mono; [exact L|apply R0; exact Hr].
+    + apply in_flat_map in Hr. destruct Hr as [[k o'] [Hin Hr]]. simpl in Hr. apply fold_add_object_in_kv in Hin. destruct Hin as [Hin|[Hin _]].
+      * destruct (C k o' Hin) as [[]|[_ [_ Hg]]]. apply Hfin. apply Hg. exact Hr.
+      * apply in_map_iff in Hin. destruct Hin as [[k1 o1] [E Hin]]. simpl in E. subst o1. left. exact (proj2 (proj2 (Q1 k1 o' Hin)) r Hr).
+Qed.
+
+(* ---------- DisjunctionToType ---------- *)
+Lemma dtt_disj_refs s st a d t1 st1 :
+  dtt_disj s st (TDisj a d) = Ok (t1, st1) -> all_refs_in (schema_refs s) (TDisj a d) -> state_ok (schema_refs s) (s_pkg s) st ->
+  st_keys_le st st1 /\ state_ok (schema_refs s) (s_pkg s) st1 /\ forall r, In r (all_refs t1) -> ref_good (schema_refs s) (s_pkg s) st1 r.
+Proof.
+  intros H Hin HQ. unfold dtt_disj in H.
+  destruct (single_type_scalars s (d_branches d)) as [[k|]| | |]; simpl in H; try discriminate.
+  - inversion H; subst. split; [intros k0 Hk; exact Hk|split; [exact HQ|intros r []]].
+  - match type of H with context [objs_has st ?n] => set (name := n) in *; destruct (objs_has st name) eqn:Eh end.
+    + inversion H; subst. split; [intros k0 Hk; exact Hk|split; [exact HQ|]]. intros r [<-|[]]. right. split; [reflexivity|exact Eh].
+    + match type of H with (do _ <- ?X ; _) = _ => destruct X as [dh| | |] eqn:Edh end; simpl in H; try discriminate.
+      inversion H; subst. clear H. split; [intros k0 Hk; apply objs_set_has; left; exact Hk|split].
+      * intros k0 o Hx. destruct (objs_set_in_kv _ _ _ _ _ Hx) as [Y|[-> ->]]; [exact (HQ _ _ Y)|]. simpl. split; [reflexivity|split; [reflexivity|]].
+        intros r Hr. simpl in Hr. apply Hin. simpl. apply in_app_or in Hr. destruct Hr as [Hr|Hr].
+        -- (* the hints keep the disjunction itself *)
+           apply in_flat_map in Hr. destruct Hr as [[hk hd] [Hkd Hr]]. simpl in Hr.
+           assert (hd = d) as ->.
+           { apply in_app_or in Hkd. destruct Hkd as [Hkd|Hkd].
+             - destruct (has_only_refs (d_branches d)); [|inversion Edh; subst; contradiction].
+               destruct (seqb (d_disc d) ""); [discriminate|]. destruct (d_mapping d); [discriminate|]. inversion Edh; subst.
+               destruct Hkd as [Hkd|[]]. inversion Hkd. reflexivity.
+             - destruct (has_only_scalar_or_array_or_map (d_branches d)); [|contradiction]. destruct Hkd as [Hkd|[]]. inversion Hkd. reflexivity. }
+           exact Hr.
+        -- rewrite flat_map_concat_map, map_map, <- flat_map_concat_map in Hr. apply in_flat_map in Hr. destruct Hr as [b [Hb Hr]]. simpl in Hr.
+           rewrite all_refs_set_nullable in Hr. apply filter_In in Hb. destruct Hb as [Hb _]. apply in_flat_map. exists b. split; assumption.
+      * intros r [<-|[]]. right. split; [reflexivity|]. simpl. apply objs_set_has. right. reflexivity.
+Qed.
+
+Lemma dtt_step s s' : (forall ko, In ko (s_objects s) -> fst ko = o_name (snd ko) /\ o_selfpkg (snd ko) = s_pkg s) ->
+  visit_schema_st [] (visit_disj (dtt_disj s)) (map snd) s = Ok s' -> step_ok s s'.
+Proof.
+  intros Hw H. apply (visit_schema_st_step (visit_disj (dtt_disj s)) (fun _ => True) s s' Hw I (fun _ _ => I)); [|exact H].
+  intros st t t' st' _ Hv Hin HQ. apply visit_disj_vrel in Hv.
+  eapply (vrel_refs_st (dtt_disj s) (schema_refs s) (s_pkg s) (state_ok (schema_refs s) (s_pkg s))); [|exact Hv|exact Hin|exact HQ].
+  intros st0 a d t1 st1. apply dtt_disj_refs.
+Qed.
+
+Theorem dtt_keeps ss out : wfk ss -> pkgs_unique ss -> refs_ok ss -> entries_ok ss -> disjunction_to_type ss = Ok out ->
+  pkgs_unique out /\ wfk out /\ shape_kept ss out /\ refs_ok out /\ entries_ok out.
+Proof.
+  intros Hw Hu HR HE H. apply step_keeps; try assumption. unfold disjunction_to_type in H.
+  apply (Forall2_mapM _ _ _ _ H). intros s s' Hs HF. apply dtt_step; [|exact HF]. intros ko Hko. exact (Hw s ko Hs Hko).
+Qed.
+
+(* ---------- DisjunctionOfAnonymousStructsToExplicit, when no union has a struct branch ---------- *)
+Theorem doaste_keeps ss out : wfk ss -> pkgs_unique ss -> refs_ok ss -> entries_ok ss ->
+  all_clean_below p_struct ss -> all_clean p_nui ss -> entry_leaf ss ->
+  disjunction_of_anonymous_structs_to_explicit ss = Ok out ->
+  pkgs_unique out /\ wfk out /\ shape_kept ss out /\ refs_ok out /\ entries_ok out.
+Proof.
+  intros Hw Hu HR HE Hs Hn Hl H. apply step_keeps; try assumption. unfold disjunction_of_anonymous_structs_to_explicit in H.
+  apply (Forall2_mapM _ _ _ _ H). intros s s' Hin HF.
+  apply (visit_schema_st_step (fun st t => Ok (doaste_ty (s_pkg s) st t)) (fun t => is_leaf t \/ any_sub q_sb false t = false) s s'); [| | | |exact HF].
+  - intros ko Hko. exact (Hw s ko Hin Hko).
+  - left. apply Hl. exact Hin.
+  - intros [k o] Hko. right. assert (In o (objects_of ss)) as Hx by (apply in_objects_of; exists s, k; split; assumption).
+    apply sb_from_struct_nui_root; [apply Hs|apply Hn]; exact Hx.
+  - intros st t t' st' HC Hv Hrefs HQ. inversion Hv as [Hv'].
+    assert (doaste_ty (s_pkg s) st t = (t, st)) as E by (destruct HC as [X|X]; [apply doaste_leaf|apply doaste_id2]; exact X).
+    rewrite E in Hv'. inversion Hv'; subst. split; [intros k Hk; exact Hk|split; [exact HQ|intros r Hr; left; apply Hrefs; exact Hr]].
+Qed.
+
+Local Close Scope string_scope.
+(* ---------- a generic step for the passes that fold (object', registered objects) over the objects ---------- *)
+Lemma fold_objs_step s (F : list (string * object) * list object -> string * object -> list (string * object) * list object)
+      (g : object -> object * list object) :
+  (forall acc ko, fst (F acc ko) = objs_set (fst acc) (fst ko) (fst (g (snd ko))) /\ snd (F acc ko) = (snd acc ++ snd (g (snd ko)))%list) ->
+  (forall ko, In ko (s_objects s) -> fst ko = o_name (snd ko) /\ o_selfpkg (snd ko) = s_pkg s) ->
+  (forall o, o_name (fst (g o)) = o_name o /\ o_selfpkg (fst (g o)) = o_selfpkg o /\ forall n, In n (snd (g o)) -> o_selfpkg n = o_selfpkg o) ->
+  (forall k o r, In (k, o) (s_objects s) -> (In r (all_refs (o_type (fst (g o)))) \/ exists n, In n (snd (g o)) /\ In r (all_refs (o_type n))) ->
+               In r (all_refs (o_type o)) \/ news_named (snd (g o)) (o_selfpkg o) r) ->
+  step_ok s (set_objects s (fold_left add_object (snd (fold_left F (s_objects s) ([], []))) (fst (fold_left F (s_objects s) ([], []))))).
+Proof.
+  intros HF Hw Hmeta Hrefs.
+  assert ((fun acc : list (string * object) * list object =>
+             (forall k o', In (k, o') (fst acc) -> exists o, In (k, o) (s_objects s) /\ o' = fst (g o)) /\
+             (forall n, In n (snd acc) -> exists ko, In ko (s_objects s) /\ In n (snd (g (snd ko)))))
+            (fold_left F (s_objects s) ([], []))) as Hinv.
+  { apply fold_left_inv; [|split; [intros k o' []|intros n []]].
+    intros acc [k0 o0] Hin0 [H1 H2]. destruct (HF acc (k0, o0)) as [E1 E2]. rewrite E1, E2. simpl. split.
+    - intros k o' Hin. destruct (objs_set_in_kv _ _ _ _ _ Hin) as [Hx|[-> ->]]; [apply H1; exact Hx|]. exists o0. split; [exact Hin0|reflexivity].
+    - intros n0 Hn. apply in_app_or in Hn. destruct Hn as [Hn|Hn]; [apply H2; exact Hn|]. exists (k0, o0). split; [exact Hin0|exact Hn]. }
+  assert (forall l acc ko, In ko l -> objs_has (fst (fold_left F l acc)) (fst ko) = true /\
+                            forall n, In n (snd (g (snd ko))) -> In n (snd (fold_left F l acc))) as Hkeys.
+  { assert (forall l acc k, objs_has (fst acc) k = true -> objs_has (fst (fold_left F l acc)) k = true) as G0.
+    { induction l as [|x r IH]; intros acc k H; [exact H|]. simpl. apply IH. rewrite (proj1 (HF acc x)). apply objs_set_has. left. exact H. }
+    assert (forall l acc n, In n (snd acc) -> In n (snd (fold_left F l acc))) as G1.
+    { induction l as [|x r IH]; intros acc n H; [exact H|]. simpl. apply IH. rewrite (proj2 (HF acc x)). apply in_or_app. left. exact H. }
+    induction l as [|x r IH]; intros acc ko Hin; [contradiction|]. simpl. destruct Hin as [<-|Hin]; [|apply IH; exact Hin]. split.
+    - apply G0. rewrite (proj1 (HF acc x)). apply objs_set_has. right. reflexivity.
+    - intros n Hn. apply G1. rewrite (proj2 (HF acc x)). apply in_or_app. right. exact Hn. }
+  destruct (fold_left F (s_objects s) ([], [])) as [objs news] eqn:Ef. simpl in *. destruct Hinv as [H1 H2].
+  assert (forall ko, In ko (s_objects s) -> objs_has objs (fst ko) = true /\ forall n, In n (snd (g (snd ko))) -> In n news) as Hk.
+  { intros ko Hko. pose proof (Hkeys (s_objects s) ([], []) ko Hko) as X. rewrite Ef in X. exact X. }
+  assert (forall k o', In (k, o') (fold_left add_object news objs) ->
+            (exists o, In (k, o) (s_objects s) /\ o' = fst (g o)) \/
+            (k = o_name o' /\ exists ko, In ko (s_objects s) /\ In o' (snd (g (snd ko))))) as Hfinal.
+  { intros k o' Hin. apply fold_add_object_in_kv in Hin. destruct Hin as [Hin|[Hin Hk0]]; [left; apply H1; exact Hin|right; split; [exact Hk0|apply H2; exact Hin]]. }
+  assert (forall o r, (exists k, In (k, o) (s_objects s)) -> news_named (snd (g o)) (o_selfpkg o) r ->
+            fst r = s_pkg s /\ objs_has (fold_left add_object news objs) (snd r) = true) as Hnew.
+  { intros o r [k Hko] [Hp [n [Hn En]]]. split; [rewrite Hp; exact (proj2 (Hw (k, o) Hko))|].
+    apply fold_add_has. right. exists n. split; [exact (proj2 (Hk (k, o) Hko) n Hn)|exact En]. }
+  split; [reflexivity|split; [reflexivity|]]. simpl. split; [|split].
+  - intros k Hk0. apply objs_has_in' in Hk0. destruct Hk0 as [o Hin]. apply fold_add_has. left. exact (proj1 (Hk (k, o) Hin)).
+  - intros [k o'] Hin. simpl. destruct (Hfinal k o' Hin) as [[o [Hko ->]]|[Hk0 [[k1 o1] [Hko Hn]]]].
+    + destruct (Hmeta o) as [M1 [M2 _]]. destruct (Hw (k, o) Hko) as [W1 W2]. simpl in *. rewrite M1, M2. split; assumption.
+    + split; [exact Hk0|]. simpl in Hn. rewrite (proj2 (proj2 (Hmeta o1)) o' Hn). exact (proj2 (Hw (k1, o1) Hko)).
+  - intros r Hr. unfold schema_refs in *. simpl in Hr. apply in_app_or in Hr. destruct Hr as [Hr|Hr]; [left; apply in_or_app; left; exact Hr|].
+    apply in_flat_map in Hr. destruct Hr as [[k o'] [Hin Hr]]. simpl in Hr.
+    destruct (Hfinal k o' Hin) as [[o [Hko ->]]|[_ [[k1 o1] [Hko Hn]]]].
+    + destruct (Hrefs k o r Hko (or_introl Hr)) as [Hx|Hx].
+      * left. apply in_or_app. right. apply in_flat_map. exists (k, o). split; assumption.
+      * right. apply (Hnew o r (ex_intro _ k Hko) Hx).
+    + simpl in Hn. destruct (Hrefs k1 o1 r Hko (or_intror (ex_intro _ o' (conj Hn Hr)))) as [Hx|Hx].
+      * left. apply in_or_app. right. apply in_flat_map. exists (k1, o1). split; assumption.
+      * right. apply (Hnew o1 r (ex_intro _ k1 Hko) Hx).
+Qed.
+
+(* ---------- AnonymousEnumToExplicitType ---------- *)
+Lemma aete_refs spkg pkg cur : forall t sug r,
+  (In r (all_refs (fst (aete_type spkg pkg cur sug t))) \/ exists o, In o (snd (aete_type spkg pkg cur sug t)) /\ In r (all_refs (o_type o))) ->
+  In r (all_refs t) \/ news_named (snd (aete_type spkg pkg cur sug t)) spkg r.
+Proof.
+  induction t as [a d IH|a v IH|a vs IH|a i v IHi IHv|a dh fs IHd IHf|a pk n|a pk n v|a k v cs|a bs IH|a v|a k]
+    using ty_ind'; intros sug r H;
+    try (destruct H as [H|[o [[] _]]]; left; exact H).
+  - rewrite aete_disj in *. simpl in *. rewrite (proj1 (aete_list_spec spkg pkg cur sug _)), (proj2 (aete_list_spec spkg pkg cur sug _)) in *.
+    rewrite Forall_forall in IH.
+    assert (exists b, In b (d_branches d) /\ (In r (all_refs (fst (aete_type spkg pkg cur sug b))) \/ exists o, In o (snd (aete_type spkg pkg cur sug b)) /\ In r (all_refs (o_type o)))) as [b [Hb Hc]].
+    { destruct H as [H|[o [Ho Hr]]].
+      - rewrite flat_map_concat_map, map_map, <- flat_map_concat_map in H. apply in_flat_map in H. destruct H as [b [Hb H]]. exists b. split; [exact Hb|left; exact H].
+      - apply in_flat_map in Ho. destruct Ho as [b [Hb Ho]]. exists b. split; [exact Hb|right; exists o; split; assumption]. }
+    destruct (IH b Hb sug r Hc) as [Hx|[Hp [o [Ho Hn]]]]; [left; apply in_flat_map; exists b; split; assumption|].
+    right. split; [exact Hp|]. exists o. split; [apply in_flat_map; exists b; split; assumption|exact Hn].
+  - rewrite aete_array in *. simpl in *. exact (IH sug r H).
+  - (* an enum: replaced by a reference to the enum object registered under that name *)
+    simpl in *. destruct H as [[<-|[]]|[o [[<-|[]] Hr]]].
+    + right. split; [reflexivity|]. eexists. split; [left; reflexivity|reflexivity].
+    + left. simpl in Hr. rewrite flat_map_concat_map, map_map, <- flat_map_concat_map in Hr. exact Hr.
+  - rewrite aete_map in *. simpl in *.
+    assert ((In r (all_refs (fst (aete_type spkg pkg cur sug i))) \/ exists o, In o (snd (aete_type spkg pkg cur sug i)) /\ In r (all_refs (o_type o))) \/
+            (In r (all_refs (fst (aete_type spkg pkg cur sug v))) \/ exists o, In o (snd (aete_type spkg pkg cur sug v)) /\ In r (all_refs (o_type o)))) as Hc.
+    { destruct H as [H|[o [Ho Hr]]].
+      - apply in_app_or in H. destruct H as [H|H]; [left; left; exact H|right; left; exact H].
+      - apply in_app_or in Ho. destruct Ho as [Ho|Ho]; [left|right]; right; exists o; split; assumption. }
+    destruct Hc as [Hc|Hc].
+    + destruct (IHi sug r Hc) as [Hx|[Hp [o [Ho Hn]]]]; [left; apply in_or_app; left; exact Hx|].
+      right. split; [exact Hp|]. exists o. split; [apply in_or_app; left; exact Ho|exact Hn].
+    + destruct (IHv sug r Hc) as [Hx|[Hp [o [Ho Hn]]]]; [left; apply in_or_app; right; exact Hx|].
+      right. split; [exact Hp|]. exists o. split; [apply in_or_app; right; exact Ho|exact Hn].
+  - rewrite aete_struct in *. simpl in *.
+    rewrite (proj1 (aete_fields_spec spkg pkg cur _)), (proj2 (aete_fields_spec spkg pkg cur _)) in *. rewrite Forall_forall in IHf.
+    set (sg := fun f : field => String.append (upper_camel_case cur) (upper_camel_case (f_name f))) in *.
+    assert ((exists f, In f fs /\ (In r (all_refs (fst (aete_type spkg pkg cur (sg f) (f_type f)))) \/
+                                  exists o, In o (snd (aete_type spkg pkg cur (sg f) (f_type f))) /\ In r (all_refs (o_type o)))) \/
+            In r (flat_map (fun kd => flat_map all_refs (d_branches (snd kd))) dh)) as Hc.
+    { destruct H as [H|[o [Ho Hr]]].
+      - apply in_app_or in H. destruct H as [H|H]; [right; exact H|]. left.
+        rewrite flat_map_concat_map, map_map, <- flat_map_concat_map in H. apply in_flat_map in H. destruct H as [f [Hf H]]. exists f. split; [exact Hf|left; exact H].
+      - left. apply in_flat_map in Ho. destruct Ho as [f [Hf Ho]]. exists f. split; [exact Hf|right; exists o; split; assumption]. }
+    destruct Hc as [[f [Hf Hc]]|Hc]; [|left; apply in_or_app; left; exact Hc].
+    destruct (IHf f Hf (sg f) r Hc) as [Hx|[Hp [o [Ho Hn]]]].
+    + left. apply in_or_app. right. apply in_flat_map. exists f. split; assumption.
+    + right. split; [exact Hp|]. exists o. split; [apply in_flat_map; exists f; split; assumption|exact Hn].
+  - rewrite aete_inter in *. simpl in *. rewrite (proj1 (aete_list_spec spkg pkg cur sug _)), (proj2 (aete_list_spec spkg pkg cur sug _)) in *.
+    rewrite Forall_forall in IH.
+    assert (exists b, In b bs /\ (In r (all_refs (fst (aete_type spkg pkg cur sug b))) \/ exists o, In o (snd (aete_type spkg pkg cur sug b)) /\ In r (all_refs (o_type o)))) as [b [Hb Hc]].
+    { destruct H as [H|[o [Ho Hr]]].
+      - rewrite flat_map_concat_map, map_map, <- flat_map_concat_map in H. apply in_flat_map in H. destruct H as [b [Hb H]]. exists b. split; [exact Hb|left; exact H].
+      - apply in_flat_map in Ho. destruct Ho as [b [Hb Ho]]. exists b. split; [exact Hb|right; exists o; split; assumption]. }
+    destruct (IH b Hb sug r Hc) as [Hx|[Hp [o [Ho Hn]]]]; [left; apply in_flat_map; exists b; split; assumption|].
+    right. split; [exact Hp|]. exists o. split; [apply in_flat_map; exists b; split; assumption|exact Hn].
+Qed.
+
+Lemma aete_news_pkg spkg pkg cur : forall t sug n, In n (snd (aete_type spkg pkg cur sug t)) -> o_selfpkg n = pkg.
+Proof.
+  induction t as [a d IH|a v IH|a vs IH|a i v IHi IHv|a dh fs IHd IHf|a pk n0|a pk n0 v|a k v cs|a bs IH|a v|a k]
+    using ty_ind'; intros sug n Hn; try (simpl in Hn; contradiction).
+  - rewrite aete_disj in Hn. simpl in Hn. rewrite (proj2 (aete_list_spec spkg pkg cur sug _)) in Hn. apply in_flat_map in Hn.
+    destruct Hn as [b [Hb Hn]]. rewrite Forall_forall in IH. exact (IH b Hb sug n Hn).
+  - rewrite aete_array in Hn. exact (IH sug n Hn).
+  - simpl in Hn. destruct Hn as [<-|[]]. reflexivity.
+  - rewrite aete_map in Hn. simpl in Hn. apply in_app_or in Hn. destruct Hn as [Hn|Hn]; [exact (IHi sug n Hn)|exact (IHv sug n Hn)].
+  - rewrite aete_struct in Hn. simpl in Hn. rewrite (proj2 (aete_fields_spec spkg pkg cur _)) in Hn. apply in_flat_map in Hn.
+    destruct Hn as [f [Hf Hn]]. rewrite Forall_forall in IHf. exact (IHf f Hf _ n Hn).
+  - rewrite aete_inter in Hn. simpl in Hn. rewrite (proj2 (aete_list_spec spkg pkg cur sug _)) in Hn. apply in_flat_map in Hn.
+    destruct Hn as [b [Hb Hn]]. rewrite Forall_forall in IH. exact (IH b Hb sug n Hn).
+Qed.
+
+Definition aete_object (spkg : string) (o : object) : object * list object :=
+  if is_enum (o_type o) then (o, [])
+  else (set_otype o (fst (aete_type spkg (o_selfpkg o) (o_name o) (String.append (upper_camel_case (o_name o)) "Enum") (o_type o))),
+        snd (aete_type spkg (o_selfpkg o) (o_name o) (String.append (upper_camel_case (o_name o)) "Enum") (o_type o))).
+
+Lemma aete_step s : (forall ko, In ko (s_objects s) -> fst ko = o_name (snd ko) /\ o_selfpkg (snd ko) = s_pkg s) -> step_ok s (aete_schema s).
+Proof.
+  intros Hw. unfold aete_schema.
+  match goal with |- context [fold_left ?F0 (s_objects s) ([], [])] => set (F := F0) end.
+  assert (step_ok s (set_objects s (fold_left add_object (snd (fold_left F (s_objects s) ([], []))) (fst (fold_left F (s_objects s) ([], [])))))) as X.
+  { apply (fold_objs_step s F (aete_object (s_pkg s))).
+    - intros acc [k o]. unfold F, aete_object. simpl. destruct (is_enum (o_type o)); simpl; [split; [reflexivity|symmetry; apply app_nil_r]|].
+      destruct (aete_type _ _ _ _ (o_type o)). split; reflexivity.
+    - exact Hw.
+    - intros o. unfold aete_object. destruct (is_enum (o_type o)); simpl; [split; [reflexivity|split; [reflexivity|intros n []]]|].
+      split; [reflexivity|split; [reflexivity|]]. intros n Hn. eapply aete_news_pkg. exact Hn.
+    - intros k o r Hko. unfold aete_object. destruct (is_enum (o_type o)); simpl; [intros [H|[n [[] _]]]; left; exact H|].
+      intros H. destruct (aete_refs _ _ _ _ _ r H) as [Hx|[Hp Hn]]; [left; exact Hx|right]. split; [|exact Hn].
+      rewrite Hp. symmetry. exact (proj2 (Hw (k, o) Hko)). }
+  destruct (fold_left F (s_objects s) ([], [])) as [objs news]. exact X.
+Qed.
+
+Theorem aete_keeps ss : wfk ss -> pkgs_unique ss -> refs_ok ss -> entries_ok ss ->
+  let out := anonymous_enum_to_explicit_type ss in
+  pkgs_unique out /\ wfk out /\ shape_kept ss out /\ refs_ok out /\ entries_ok out.
+Proof.
+  intros Hw Hu HR HE. apply step_keeps; try assumption. unfold anonymous_enum_to_explicit_type.
+  apply Forall2_map_r. intros s Hs. apply aete_step. intros ko Hko. exact (Hw s ko Hs Hko).
+Qed.
+
+(* ---------- any pass of the form mapM (visit_schema ft (type-wise ft)) ---------- *)
+Lemma vs_keeps (ft : schema -> ty -> res ty) ss out :
+  wfk ss -> refs_ok ss -> entries_ok ss ->
+  (forall s t t', In s ss -> ft s t = Ok t' -> all_refs_in (flat_map schema_refs ss) t -> all_refs_in (flat_map schema_refs ss) t') ->
+  mapM (fun s => visit_schema (ft s) (fun o => do t <- ft s (o_type o) ; Ok (set_otype o t)) s) ss = Ok out ->
+  wfk out /\ shape_kept ss out /\ refs_ok out /\ entries_ok out.
+Proof.
+  intros Hw HR HE Href H. pose proof (mapM_Forall2 _ _ _ H) as HF. set (G := flat_map schema_refs ss) in *.
+  assert (forall s s', In s ss -> visit_schema (ft s) (fun o => do t <- ft s (o_type o) ; Ok (set_otype o t)) s = Ok s' ->
+            (s_pkg s' = s_pkg s /\ s_entry s' = s_entry s /\ (forall k, objs_has (s_objects s) k = true -> objs_has (s_objects s') k = true)) /\
+            (forall ko, In ko (s_objects s') -> fst ko = o_name (snd ko) /\ o_selfpkg (snd ko) = s_pkg s') /\
+            (forall r, In r (schema_refs s') -> In r G)) as Hone.
+  { intros s s' Hs Hv. rewrite visit_schema_eq in Hv.
+    assert (forall t, In t (s_entrytype s :: map (fun ko => o_type (snd ko)) (s_objects s)) -> all_refs_in G t) as Hin.
+    { intros t Ht x Hx. unfold G. apply in_flat_map. exists s. split; [exact Hs|]. unfold schema_refs.
+      destruct Ht as [<-|Ht]; [apply in_or_app; left; exact Hx|]. apply in_or_app. right.
+      apply in_map_iff in Ht. destruct Ht as [ko [<- Hko]]. apply in_flat_map. exists ko. split; assumption. }
+    destruct (ft s (s_entrytype s)) as [et| | |] eqn:Ee; simpl in Hv; try discriminate.
+    destruct (vs_loop _ (s_objects s) []) as [objs| | |] eqn:El; simpl in Hv; try discriminate. inversion Hv; subst. simpl.
+    destruct (vs_loop_spec _ _ _ _ El) as [_ [B C]]. split; [split; [reflexivity|split; [reflexivity|]]|split].
+    - intros k Hk. apply objs_has_in' in Hk. destruct Hk as [o Hko]. destruct (B (k, o) Hko) as [o' [Hf Hh]]. simpl in Hf.
+      destruct (ft s (o_type o)); simpl in Hf; try discriminate. inversion Hf; subst. simpl in Hh.
+      destruct (Hw s (k, o) Hs Hko) as [Hk _]. simpl in Hk. rewrite Hk. exact Hh.
+    - intros [k o'] Hko. destruct (C k o' Hko) as [[]|[Hk [[k0 o0] [Hko0 Hf]]]]. simpl in Hf.
+      destruct (ft s (o_type o0)); simpl in Hf; try discriminate. inversion Hf; subst. simpl. split; [reflexivity|].
+      exact (proj2 (Hw s (k0, o0) Hs Hko0)).
+    - intros r Hr. unfold schema_refs in Hr. simpl in Hr. apply in_app_or in Hr. destruct Hr as [Hr|Hr].
+      + exact (Href s _ _ Hs Ee (Hin _ (or_introl eq_refl)) r Hr).
+      + apply in_flat_map in Hr. destruct Hr as [[k o'] [Hko Hr]]. simpl in Hr.
+        destruct (C k o' Hko) as [[]|[_ [[k0 o0] [Hko0 Hf]]]]. simpl in Hf.
+        destruct (ft s (o_type o0)) as [t'| | |] eqn:Et; simpl in Hf; try discriminate. inversion Hf; subst. simpl in Hr.
+        refine (Href s _ _ Hs Et (Hin _ _) r Hr). right. apply in_map_iff. exists (k0, o0). split; [reflexivity|exact Hko0]. }
+  assert (forall s s', In s ss -> visit_schema (ft s) (fun o => do t <- ft s (o_type o) ; Ok (set_otype o t)) s = Ok s' ->
+            s_pkg s' = s_pkg s /\ s_entry s' = s_entry s /\ (forall k, objs_has (s_objects s) k = true -> objs_has (s_objects s') k = true)) as Hshape1.
+  { intros s s' Hs Hv. exact (proj1 (Hone s s' Hs Hv)). }
+  assert (shape_kept ss out) as Hsh.
+  { clear - HF Hshape1. revert Hshape1. induction HF as [|s s' r r' Hv _ IH]; intros Hshape1; [constructor|]. constructor.
+    - exact (Hshape1 s s' (or_introl eq_refl) Hv).
+    - apply IH. intros s0 s0' Hs0. apply Hshape1. right. exact Hs0. }
+  split; [|split; [exact Hsh|split; [|eapply entries_kept; eassumption]]].
+  - intros s' ko Hs' Hko. destruct (Forall2_in_r _ _ _ HF s' Hs') as [s [Hs Hv]]. exact (proj1 (proj2 (Hone s s' Hs Hv)) ko Hko).
+  - apply (refs_kept ss out HR Hsh). intros s' r Hs' Hr. left. destruct (Forall2_in_r _ _ _ HF s' Hs') as [s [Hs Hv]].
+    exact (proj2 (proj2 (Hone s s' Hs Hv)) r Hr).
+Qed.
+
+(* SanitizeEnumMemberNames keeps the references of every type *)
+Lemma senm_member_type v v' : senm_member v = Ok v' -> ev_type v' = ev_type v.
+Proof.
+  unfold senm_member. destruct (member_kind v); cbn [bind]; try discriminate.
+  match goal with |- (do _ <- ?X ; _) = _ -> _ => destruct X as [n1| | |] end; cbn [bind]; try discriminate.
+  destruct (first_char n1); [|discriminate]. destruct (first_char _); [|discriminate]. intros H. inversion H; subst. reflexivity.
+Qed.
+Lemma senm_refs : forall t t', senm_ty t = Ok t' -> all_refs t' = all_refs t.
+Proof.
+  induction t as [a d IH|a v IH|a vs IH|a i v IHi IHv|a dh fs IHd IHf|a pk n|a pk n v|a k v cs|a bs IH|a v|a k]
+    using ty_ind'; intros t' H;
+    [rewrite senm_disj_eq in H|simpl in H|simpl in H|simpl in H|rewrite senm_struct_eq in H
+     |simpl in H|simpl in H|simpl in H|rewrite senm_inter_eq in H|simpl in H|simpl in H];
+    try (inversion H; subst; reflexivity).
+  - assert (forall l l', Forall (fun b => forall t', senm_ty b = Ok t' -> all_refs t' = all_refs b) l ->
+              senm_list l = Ok l' -> flat_map all_refs l' = flat_map all_refs l) as G.
+    { induction l as [|b r IHl]; intros l' HF Hl; simpl in Hl; [inversion Hl; subst; reflexivity|].
+      inversion HF as [|? ? Hb Hr]; subst.
+      destruct (senm_ty b) as [b1| | |] eqn:E1; simpl in Hl; try discriminate.
+      destruct (senm_list r) as [r1| | |] eqn:E2; simpl in Hl; try discriminate.
+      inversion Hl; subst. simpl. rewrite (Hb b1 eq_refl), (IHl r1 Hr eq_refl). reflexivity. }
+    destruct (senm_list (d_branches d)) as [bs1| | |] eqn:E; simpl in H; try discriminate. inversion H; subst. simpl. exact (G _ _ IH E).
+  - destruct (senm_ty v) as [v1| | |] eqn:E; simpl in H; try discriminate. inversion H; subst. simpl. exact (IH v1 eq_refl).
+  - destruct (mapM senm_member vs) as [vs1| | |] eqn:E; simpl in H; try discriminate. inversion H; subst. simpl.
+    pose proof (mapM_Forall2 _ _ _ E) as HF. clear E H IH. induction HF as [|v v' r r' Hv _ IHr]; [reflexivity|]. simpl.
+    rewrite (senm_member_type _ _ Hv), IHr. reflexivity.
+  - destruct (senm_ty i) as [i1| | |] eqn:Ei; simpl in H; try discriminate.
+    destruct (senm_ty v) as [v1| | |] eqn:Ev; simpl in H; try discriminate. inversion H; subst. simpl.
+    rewrite (IHi i1 eq_refl), (IHv v1 eq_refl). reflexivity.
+  - assert (forall l l', Forall (fun f => forall t', senm_ty (f_type f) = Ok t' -> all_refs t' = all_refs (f_type f)) l ->
+              senm_fields l = Ok l' -> flat_map (fun f => all_refs (f_type f)) l' = flat_map (fun f => all_refs (f_type f)) l) as G.
+    { induction l as [|f r IHl]; intros l' HF Hl; simpl in Hl; [inversion Hl; subst; reflexivity|].
+      inversion HF as [|? ? Hf Hr]; subst.
+      destruct (senm_ty (f_type f)) as [t1| | |] eqn:E1; simpl in Hl; try discriminate.
+      destruct (senm_fields r) as [r1| | |] eqn:E2; simpl in Hl; try discriminate.
+      inversion Hl; subst. simpl. rewrite (Hf t1 eq_refl), (IHl r1 Hr eq_refl). reflexivity. }
+    destruct (senm_fields fs) as [fs1| | |] eqn:E; simpl in H; try discriminate. inversion H; subst. simpl. rewrite (G _ _ IHf E). reflexivity.
+  - assert (forall l l', Forall (fun b => forall t', senm_ty b = Ok t' -> all_refs t' = all_refs b) l ->
+              senm_list l = Ok l' -> flat_map all_refs l' = flat_map all_refs l) as G.
+    { induction l as [|b r IHl]; intros l' HF Hl; simpl in Hl; [inversion Hl; subst; reflexivity|].
+      inversion HF as [|? ? Hb Hr]; subst.
+      destruct (senm_ty b) as [b1| | |] eqn:E1; simpl in Hl; try discriminate.
+      destruct (senm_list r) as [r1| | |] eqn:E2; simpl in Hl; try discriminate.
+      inversion Hl; subst. simpl. rewrite (Hb b1 eq_refl), (IHl r1 Hr eq_refl). reflexivity. }
+    destruct (senm_list bs) as [bs1| | |] eqn:E; simpl in H; try discriminate. inversion H; subst. simpl. exact (G _ _ IH E).
+Qed.
+
+Theorem senm_keeps ss out : wfk ss -> refs_ok ss -> entries_ok ss -> sanitize_enum_member_names ss = Ok out ->
+  wfk out /\ shape_kept ss out /\ refs_ok out /\ entries_ok out.
+Proof.
+  intros Hw HR HE H. unfold sanitize_enum_member_names in H.
+  apply (vs_keeps (fun _ => senm_ty) ss out Hw HR HE); [|exact H].
+  intros s t t' _ Ht Hin r Hr. rewrite (senm_refs _ _ Ht) in Hr. apply Hin. exact Hr.
+Qed.
+
+(* =====================================================================================
+   THE CHAINS keep references and entry points resolving
+   ===================================================================================== *)
+Theorem java_core_chain_keeps_references ss out :
+  wf_refs_input ss -> refs_ok ss -> entries_ok ss -> process (removelast chain_java) ss = Ok out ->
+  wf_refs_input out /\ refs_ok out /\ entries_ok out.
+Proof.
+  intros [W0 U0] R0 E0 H. unfold chain_java in H. cbn [removelast] in H.
+  step_total H. destruct (astn_keeps _ W0 U0 R0 E0) as [U1 [W1 [_ [R1 E1]]]].
+  step_total H. destruct (nrfn_keeps _ W1 U1 R1 E1) as [U2 [W2 [_ [R2 E2]]]].
+  step_res H s3 P3. destruct (dwnto_keeps _ _ W2 R2 E2 P3) as [W3 [S3 [R3 E3]]]. pose proof (shape_unique _ _ S3 U2) as U3.
+  step_res H s4 P4. destruct (docte_keeps _ _ W3 R3 E3 P4) as [W4 [S4 [R4 E4]]]. pose proof (shape_unique _ _ S4 U3) as U4.
+  step_total H. destruct (aete_keeps _ W4 U4 R4 E4) as [U5 [W5 [_ [R5 E5]]]].
+  step_res H s6 P6. destruct (fd_keeps _ _ W5 R5 E5 P6) as [W6 [S6 [R6 E6]]]. pose proof (shape_unique _ _ S6 U5) as U6.
+  step_res H s7 P7. destruct (dim_keeps _ _ W6 R6 E6 P7) as [W7 [S7 [R7 E7]]]. pose proof (shape_unique _ _ S7 U6) as U7.
+  step_res H s8 P8. destruct (udta_keeps _ _ W7 R7 E7 P8) as [W8 [S8 [R8 E8]]]. pose proof (shape_unique _ _ S8 U7) as U8.
+  step_res H s9 P9. simpl in H. inversion H; subst. destruct (dtt_keeps _ _ W8 U8 R8 E8 P9) as [U9 [W9 [_ [R9 E9]]]].
+  split; [split; assumption|split; assumption].
+Qed.
+
+Theorem php_core_chain_keeps_references ss out :
+  wf_refs_input ss -> refs_ok ss -> entries_ok ss -> process (removelast chain_php) ss = Ok out ->
+  wf_refs_input out /\ refs_ok out /\ entries_ok out.
+Proof.
+  intros [W0 U0] R0 E0 H. unfold chain_php in H. cbn [removelast] in H.
+  step_total H. destruct (astn_keeps _ W0 U0 R0 E0) as [U1 [W1 [_ [R1 E1]]]].
+  step_total H. destruct (nrfn_keeps _ W1 U1 R1 E1) as [U2 [W2 [_ [R2 E2]]]].
+  step_res H s3 P3. destruct (dwnto_keeps _ _ W2 R2 E2 P3) as [W3 [S3 [R3 E3]]]. pose proof (shape_unique _ _ S3 U2) as U3.
+  step_res H s4 P4. destruct (docte_keeps _ _ W3 R3 E3 P4) as [W4 [S4 [R4 E4]]]. pose proof (shape_unique _ _ S4 U3) as U4.
+  step_total H. destruct (aete_keeps _ W4 U4 R4 E4) as [U5 [W5 [_ [R5 E5]]]].
+  step_res H s6 P6. destruct (senm_keeps _ _ W5 R5 E5 P6) as [W6 [S6 [R6 E6]]]. pose proof (shape_unique _ _ S6 U5) as U6.
+  step_res H s7 P7. destruct (fd_keeps _ _ W6 R6 E6 P7) as [W7 [S7 [R7 E7]]]. pose proof (shape_unique _ _ S7 U6) as U7.
+  step_res H s8 P8. destruct (dim_keeps _ _ W7 R7 E7 P8) as [W8 [S8 [R8 E8]]]. pose proof (shape_unique _ _ S8 U7) as U8.
+  step_res H s9 P9. simpl in H. inversion H; subst. destruct (udta_keeps _ _ W8 R8 E8 P9) as [W9 [S9 [R9 E9]]]. pose proof (shape_unique _ _ S9 U8) as U9.
+  split; [split; assumption|split; assumption].
+Qed.
+
+(* Go: DisjunctionOfAnonymousStructsToExplicit is handled through the fact that, after AnonymousStructsToNamed, it
+   has nothing to do when no union sits inside an allOf composition *)
+Theorem go_chain_keeps_references ss out :
+  wf_refs_input ss -> union_in_inter ss = false -> entry_simple ss = true ->
+  refs_ok ss -> entries_ok ss -> process chain_go ss = Ok out ->
+  refs_ok out /\ entries_ok out.
+Proof.
+  intros [W0 U0] Hu He R0 E0 H. pose proof (proj1 (all_clean_iff _ _) Hu) as N0. pose proof (entry_simple_leaf _ He) as L0.
+  unfold chain_go in H.
+  step_total H. destruct (astn_keeps _ W0 U0 R0 E0) as [U1 [W1 [_ [R1 E1]]]].
+  pose proof (nui_astn _ N0) as N1. pose proof (entry_leaf_astn _ L0) as L1.
+  pose proof (proj1 (all_clean_below_iff _ _) (astn_establishes_no_anonymous_struct ss)) as S1.
+  step_total H. destruct (nrfn_keeps _ W1 U1 R1 E1) as [U2 [W2 [_ [R2 E2]]]].
+  pose proof (nui_nrfn _ N1) as N2. pose proof (entry_leaf_nrfn _ L1) as L2. pose proof (nrfn_pres_below p_struct _ srel_struct_below' S1) as S2.
+  step_res H s3 P3. destruct (dwnto_keeps _ _ W2 R2 E2 P3) as [W3 [Sh3 [R3 E3]]]. pose proof (shape_unique _ _ Sh3 U2) as U3.
+  pose proof (nui_dwnto _ _ N2 P3) as N3. pose proof (entry_leaf_v0 _ _ _ L2 P3) as L3. pose proof (i1_dwnto _ _ N2 S2 P3) as S3.
+  step_res H s4 P4. destruct (docte_keeps _ _ W3 R3 E3 P4) as [W4 [Sh4 [R4 E4]]]. pose proof (shape_unique _ _ Sh4 U3) as U4.
+  pose proof (nui_docte _ _ N3 P4) as N4. pose proof (entry_leaf_v0 _ _ _ L3 P4) as L4. pose proof (i1_docte _ _ N3 S3 P4) as S4.
+  step_total H. destruct (aete_keeps _ W4 U4 R4 E4) as [U5 [W5 [_ [R5 E5]]]].
+  pose proof (nui_aete _ N4) as N5. pose proof (entry_leaf_aete _ L4) as L5. pose proof (aete_pres_below p_struct _ srel_struct_below' S4) as S5.
+  step_res H s6 P6. destruct (pev_keeps _ _ W5 U5 R5 E5 P6) as [U6 [W6 [_ [R6 E6]]]].
+  pose proof (nui_pev _ _ N5 P6) as N6. pose proof (entry_leaf_pev _ _ L5 P6) as L6. pose proof (pev_pres_below p_struct _ _ S5 P6) as S6.
+  step_res H s7 P7. destruct (fd_keeps _ _ W6 R6 E6 P7) as [W7 [Sh7 [R7 E7]]]. pose proof (shape_unique _ _ Sh7 U6) as U7.
+  pose proof (nui_fd _ _ N6 P7) as N7. pose proof (entry_leaf_v0 _ _ _ L6 P7) as L7. pose proof (i1_fd _ _ N6 S6 P7) as S7.
+  step_res H s8 P8. destruct (doaste_keeps _ _ W7 U7 R7 E7 S7 N7 L7 P8) as [U8 [W8 [_ [R8 E8]]]].
+  step_res H s9 P9. destruct (dim_keeps _ _ W8 R8 E8 P9) as [W9 [Sh9 [R9 E9]]]. pose proof (shape_unique _ _ Sh9 U8) as U9.
+  step_res H s10 P10. destruct (udta_keeps _ _ W9 R9 E9 P10) as [W10 [Sh10 [R10 E10]]]. pose proof (shape_unique _ _ Sh10 U9) as U10.
+  step_res H s11 P11. simpl in H. inversion H; subst. destruct (dtt_keeps _ _ W10 U10 R10 E10 P11) as [_ [_ [_ [R11 E11]]]].
+  split; assumption.
+Qed.
+
+(* ---------- witnesses of the open C05 findings, on the models ---------- *)
+Local Open Scope string_scope.
+(* C05-java-remove-intersections: the collapsed struct is still referred to below an array *)
+Definition w_ri_dangling : schemas :=
+  [mkSchema "p" wm0 "" ty_zero
+    [("S", mkObject "S" [] (TStruct A0 [] [mkField "x" [] (xSc KString) true]) "p" "S");
+     ("Alias", mkObject "Alias" [] (TRef A0 "p" "S") "p" "Alias");
+     ("Obj", mkObject "Obj" [] (TStruct A0 [] [mkField "f" [] (TArray A0 (TRef A0 "p" "S")) true]) "p" "Obj")]].
+(* C05-php-inline-objects: a reference inlined BEFORE the inlined object was itself rewritten keeps a reference
+   to an object the pass then removes *)
+Definition w_inline_dangling : schemas :=
+  [mkSchema "p" wm0 "" ty_zero
+    [("S", mkObject "S" [] (TStruct A0 [] [mkField "x" [] (TRef A0 "p" "X") true]) "p" "S");
+     ("X", mkObject "X" [] (TArray A0 (TRef A0 "p" "Y")) "p" "X");
+     ("Y", mkObject "Y" [] (xSc KString) "p" "Y")]].
+(* C05-flatten-case-colliding-branches: `foo | Foo` share a type name, the second branch is dropped, its mapping entry stays *)
+Definition w_flatten_orphan : schemas :=
+  [mkSchema "p" wm0 "" ty_zero
+    [("foo", mkObject "foo" [] (TStruct A0 [] []) "p" "foo");
+     ("Foo", mkObject "Foo" [] (TStruct A0 [] []) "p" "Foo");
+     ("U", mkObject "U" [] (TDisj A0 (mkDisj [TRef A0 "p" "foo"; TRef A0 "p" "Foo"] "kind" [("a", "foo"); ("b", "Foo")])) "p" "U")]].
+Example chain_passes_that_break_resolution :
+  (resolves w_ri_dangling = true /\ exists out, remove_intersections w_ri_dangling = Ok out /\ dangling out = [("p", "S")]) /\
+  (resolves w_inline_dangling = true /\ exists out, inline_objects_with_types ["scalar"; "array"] w_inline_dangling = Ok out /\ dangling out = [("p", "Y")]) /\
+  (resolves w_flatten_orphan = true /\ exists out, flatten_disjunctions w_flatten_orphan = Ok out /\ dangling out = [("<mapping>", "Foo")]).
+Proof. repeat split; try (vm_compute; reflexivity); eexists; split; vm_compute; reflexivity. Qed.
+Local Close Scope string_scope.
+
+(* =====================================================================================
+   discriminator mappings: none before DisjunctionInferMapping, and that pass only targets
+   the names of the branches
+   ===================================================================================== *)
+Definition no_map (d : disj_ ty) : bool := match d_mapping d with [] => true | _ => false end.
+Fixpoint nm_ty (t : ty) : bool :=
+  match t with
+  | TDisj _ d => no_map d && forallb nm_ty (d_branches d)
+  | TArray _ v => nm_ty v
+  | TMap _ i v => nm_ty i && nm_ty v
+  | TStruct _ dh fs => forallb (fun kd => no_map (snd kd) && forallb nm_ty (d_branches (snd kd))) dh && forallb (fun f => nm_ty (f_type f)) fs
+  | TInter _ bs => forallb nm_ty bs
+  | _ => true
+  end.
+Definition no_mappings (ss : schemas) : bool :=
+  forallb (fun s => nm_ty (s_entrytype s) && forallb (fun ko => nm_ty (o_type (snd ko))) (s_objects s)) ss.
+
+Lemma no_map_dangling d : no_map d = true -> mapping_dangling d = [].
+Proof. unfold no_map, mapping_dangling. destruct (d_mapping d); [reflexivity|discriminate]. Qed.
+
+Lemma nm_bad : forall t, nm_ty t = true -> bad_mappings t = [].
+Proof.
+  induction t as [a d IH|a v IH|a vs IH|a i v IHi IHv|a dh fs IHd IHf|a pk n|a pk n v|a k v cs|a bs IH|a v|a k]
+    using ty_ind'; simpl; intros H; try reflexivity.
+  - apply andb_true_iff in H. destruct H as [H1 H2]. rewrite (no_map_dangling _ H1). simpl.
+    apply flat_map_nil_iff. intros b Hb. rewrite Forall_forall in IH. apply IH; [exact Hb|]. rewrite forallb_forall in H2. apply H2. exact Hb.
+  - apply IH. exact H.
+  - apply andb_true_iff in H. destruct H as [H1 H2]. rewrite (IHi H1), (IHv H2). reflexivity.
+  - apply andb_true_iff in H. destruct H as [H1 H2].
+    assert (flat_map (fun kd => mapping_dangling (snd kd) ++ flat_map bad_mappings (d_branches (snd kd))) dh = []) as E1.
+    { apply flat_map_nil_iff. intros kd Hkd. rewrite forallb_forall in H1. specialize (H1 kd Hkd). apply andb_true_iff in H1. destruct H1 as [A B].
+      rewrite (no_map_dangling _ A). simpl. apply flat_map_nil_iff. intros b Hb. rewrite Forall_forall in IHd. specialize (IHd kd Hkd).
+      rewrite Forall_forall in IHd. apply IHd; [exact Hb|]. rewrite forallb_forall in B. apply B. exact Hb. }
+    rewrite E1. simpl. apply flat_map_nil_iff. intros f Hf. rewrite Forall_forall in IHf. apply IHf; [exact Hf|]. rewrite forallb_forall in H2. apply H2. exact Hf.
+  - apply flat_map_nil_iff. intros b Hb. rewrite Forall_forall in IH. apply IH; [exact Hb|]. rewrite forallb_forall in H. apply H. exact Hb.
+Qed.
+
+Lemma nm_set_nullable t b : nm_ty (set_nullable t b) = nm_ty t.
+Proof. destruct t; reflexivity. Qed.
+
+(* through the visitor *)
+Lemma vrel_pred {S} (f : S -> ty -> res (ty * S)) (P : ty -> bool)
+  (P_array : forall a v, P (TArray a v) = P v) (P_map : forall a i v, P (TMap a i v) = P i && P v)
+  (P_inter : forall a bs, P (TInter a bs) = forallb P bs)
+  (P_struct : forall a dh fs fs', forallb (fun x => P (f_type x)) fs' = true -> P (TStruct a dh fs) = true -> P (TStruct a dh fs') = true)
+  (P_struct_fields : forall a dh fs, P (TStruct a dh fs) = true -> forallb (fun x => P (f_type x)) fs = true) :
+  (forall st a d t1 st1, f st (TDisj a d) = Ok (t1, st1) -> P (TDisj a d) = true -> P t1 = true) ->
+  forall st t t' st', vrel f st t t' st' -> P t = true -> P t' = true.
+Proof.
+  intros Hf.
+  assert ((forall st t t' st', vrel f st t t' st' -> P t = true -> P t' = true) /\
+          (forall st fs fs' st', vrel_fields f st fs fs' st' -> forallb (fun x => P (f_type x)) fs = true -> forallb (fun x => P (f_type x)) fs' = true) /\
+          (forall st bs bs' st', vrel_list f st bs bs' st' -> forallb P bs = true -> forallb P bs' = true)) as X.
+  { apply vrel_mutind.
+    - intros st a v v' st' _ IH H. rewrite P_array in *. exact (IH H).
+    - intros st a i v i' v' st1 st2 _ IHi _ IHv H. rewrite P_map in *. apply andb_true_iff in H. destruct H as [H1 H2]. rewrite (IHi H1), (IHv H2). reflexivity.
+    - intros st a dh fs fs' st' _ IH H. apply (P_struct a dh fs fs'); [apply IH; eapply P_struct_fields; exact H|exact H].
+    - intros st a bs bs' st' _ IH H. rewrite P_inter in *. exact (IH H).
+    - intros st a d t' st' Hd H. exact (Hf _ _ _ _ _ Hd H).
+    - intros st t _ H. exact H.
+    - intros st _. reflexivity.
+    - intros st f0 t' st1 r r' st2 _ IHt _ IHr H. simpl in *. apply andb_true_iff in H. destruct H as [H1 H2]. rewrite (IHt H1), (IHr H2). reflexivity.
+    - intros st _. reflexivity.
+    - intros st b b' st1 r r' st2 _ IHb _ IHr H. simpl in *. apply andb_true_iff in H. destruct H as [H1 H2]. rewrite (IHb H1), (IHr H2). reflexivity. }
+  exact (proj1 X).
+Qed.
+
+Lemma vrel_nm {S} (f : S -> ty -> res (ty * S)) :
+  (forall st a d t1 st1, f st (TDisj a d) = Ok (t1, st1) -> nm_ty (TDisj a d) = true -> nm_ty t1 = true) ->
+  forall st t t' st', vrel f st t t' st' -> nm_ty t = true -> nm_ty t' = true.
+Proof.
+  apply (vrel_pred f nm_ty); try reflexivity.
+  - intros a dh fs fs' H1 H2. simpl in *. apply andb_true_iff in H2. destruct H2 as [A _]. rewrite A, H1. reflexivity.
+  - intros a dh fs H. simpl in H. apply andb_true_iff in H. destruct H as [_ B]. exact B.
+Qed.
+
+(* the schema-level wrapper for a boolean type predicate through mapM (visit_schema ...) *)
+Definition types_all (P : ty -> bool) (ss : schemas) : bool :=
+  forallb (fun s => P (s_entrytype s) && forallb (fun ko => P (o_type (snd ko))) (s_objects s)) ss.
+
+Lemma vs_types_all (P : ty -> bool) (ft : schema -> ty -> res ty) ss out :
+  (forall s t t', In s ss -> types_all P [s] = true -> ft s t = Ok t' -> P t = true -> P t' = true) ->
+  types_all P ss = true ->
+  mapM (fun s => visit_schema (ft s) (fun o => do t <- ft s (o_type o) ; Ok (set_otype o t)) s) ss = Ok out ->
+  types_all P out = true.
+Proof.
+  intros Hft Hall H. unfold types_all in *. rewrite forallb_forall in *. intros s' Hs'.
+  destruct (Forall2_in_r _ _ _ (mapM_Forall2 _ _ _ H) s' Hs') as [s [Hs Hv]]. specialize (Hall s Hs).
+  apply andb_true_iff in Hall. destruct Hall as [He Ho]. rewrite visit_schema_eq in Hv.
+  assert (types_all P [s] = true) as Hone by (unfold types_all; simpl; rewrite He, Ho; reflexivity).
+  destruct (ft s (s_entrytype s)) as [et| | |] eqn:Ee; simpl in Hv; try discriminate.
+  destruct (vs_loop _ (s_objects s) []) as [objs| | |] eqn:El; simpl in Hv; try discriminate. inversion Hv; subst. simpl.
+  rewrite (Hft s _ _ Hs Hone Ee He). simpl. apply forallb_forall. intros [k o'] Hko. simpl.
+  destruct (vs_loop_spec _ _ _ _ El) as [_ [_ C]]. destruct (C k o' Hko) as [[]|[_ [[k0 o0] [Hko0 Hf]]]]. simpl in Hf.
+  destruct (ft s (o_type o0)) as [t'| | |] eqn:Et; simpl in Hf; try discriminate. inversion Hf; subst. simpl.
+  apply (Hft s _ _ Hs Hone Et). rewrite forallb_forall in Ho. exact (Ho (k0, o0) Hko0).
+Qed.
+
+Lemma v0_types_all (P : ty -> bool) f ss out :
+  (forall s t t', In s ss -> types_all P [s] = true -> visit_disj0 (f s) t = Ok t' -> P t = true -> P t' = true) ->
+  types_all P ss = true -> visit_schemas_disj0 f ss = Ok out -> types_all P out = true.
+Proof. intros Hf Hall H. unfold visit_schemas_disj0 in H. eapply (vs_types_all P (fun s => visit_disj0 (f s))); eassumption. Qed.
+
+Lemma no_mappings_eq ss : no_mappings ss = types_all nm_ty ss.
+Proof. reflexivity. Qed.
+
+(* nm through the passes of the Python chain that precede DisjunctionInferMapping *)
+Lemma nm_v0 f ss out :
+  (forall s a d t1, In s ss -> types_all nm_ty [s] = true -> f s (TDisj a d) = Ok t1 -> nm_ty (TDisj a d) = true -> nm_ty t1 = true) ->
+  no_mappings ss = true -> visit_schemas_disj0 f ss = Ok out -> no_mappings out = true.
+Proof.
+  intros Hf. apply v0_types_all. intros s t t' Hs Hone Hv Ht. apply visit_disj0_vrel in Hv.
+  eapply (vrel_nm (lift0 (f s))); [|exact Hv|exact Ht]. intros st a d t1 st1 Hd. apply lift0_inv in Hd. eapply Hf; eassumption.
+Qed.
+
+Theorem nm_dwnto ss out : no_mappings ss = true -> disjunction_with_null_to_optional ss = Ok out -> no_mappings out = true.
+Proof.
+  apply nm_v0. intros s a d t1 _ _ Hd Hn. destruct (dwnto_disj_shape _ _ _ Hd) as [->|[b [Hb [_ ->]]]]; [exact Hn|].
+  rewrite nm_set_nullable. simpl in Hn. apply andb_true_iff in Hn. destruct Hn as [_ Hn]. rewrite forallb_forall in Hn. apply Hn. exact Hb.
+Qed.
+Theorem nm_docte ss out : no_mappings ss = true -> disjunction_of_constants_to_enum ss = Ok out -> no_mappings out = true.
+Proof. apply nm_v0. intros s a d t1 _ _ Hd Hn. destruct (docte_disj_shape _ _ _ _ Hd) as [->|[vs ->]]; [exact Hn|reflexivity]. Qed.
+Theorem nm_fd ss out : no_mappings ss = true -> flatten_disjunctions ss = Ok out -> no_mappings out = true.
+Proof.
+  apply nm_v0. intros s a d t1 _ Hone Hd Hn. simpl in Hn. apply andb_true_iff in Hn. destruct Hn as [Hm Hb]. rewrite forallb_forall in Hb.
+  destruct (fd_disj_branches (fun b => nm_ty b = true) s a d t1 Hb) as [bs' [-> Hbs']]; [|exact Hd|].
+  - intros k o a' d' Hko E rb Hrb. unfold types_all in Hone. simpl in Hone. rewrite andb_true_r in Hone. apply andb_true_iff in Hone.
+    destruct Hone as [_ Ho]. rewrite forallb_forall in Ho. specialize (Ho (k, o) Hko). simpl in Ho. rewrite E in Ho. simpl in Ho.
+    apply andb_true_iff in Ho. destruct Ho as [_ Ho]. rewrite forallb_forall in Ho. apply Ho. exact Hrb.
+  - simpl. unfold no_map in *. simpl. rewrite Hm. simpl. apply forallb_forall. exact Hbs'.
+Qed.
+
+Lemma forallb_map {A B} (g : A -> B) (P : B -> bool) l : forallb P (map g l) = forallb (fun x => P (g x)) l.
+Proof. induction l as [|x r IH]; [reflexivity|]. simpl. rewrite IH. reflexivity. Qed.
+Lemma forallb_ext_in2 {A} (f g : A -> bool) l : (forall x, In x l -> f x = g x) -> forallb f l = forallb g l.
+Proof. induction l as [|x r IH]; intros H; [reflexivity|]. simpl. rewrite (H x (or_introl eq_refl)), IH; [reflexivity|]. intros y Hy. apply H. right; exact Hy. Qed.
+
+Lemma nm_nrfn_ty : forall t, nm_ty (nrfn_ty t) = nm_ty t.
+Proof.
+  induction t as [a d IH|a v IH|a vs IH|a i v IHi IHv|a dh fs IHd IHf|a pk n|a pk n v|a k v cs|a bs IH|a v|a k]
+    using ty_ind'; simpl; try reflexivity.
+  - unfold no_map. simpl. f_equal. rewrite forallb_map. apply forallb_ext_in2. rewrite Forall_forall in IH. exact IH.
+  - exact IH.
+  - rewrite IHi, IHv. reflexivity.
+  - f_equal. rewrite forallb_map. apply forallb_ext_in2. intros f Hf. simpl. rewrite Forall_forall in IHf.
+    destruct (negb (f_required f) && negb (nullable (ty_attrs (nrfn_ty (f_type f))))); [rewrite nm_set_nullable|]; apply IHf; exact Hf.
+  - rewrite forallb_map. apply forallb_ext_in2. rewrite Forall_forall in IH. exact IH.
+Qed.
+
+Theorem nm_nrfn ss : no_mappings ss = true -> no_mappings (not_required_field_as_nullable_type ss) = true.
+Proof.
+  unfold no_mappings, not_required_field_as_nullable_type. rewrite !forallb_forall. intros H s' Hs'.
+  apply in_map_iff in Hs'. destruct Hs' as [s [<- Hs]]. specialize (H s Hs). apply andb_true_iff in H. destruct H as [He Ho].
+  apply andb_true_iff. split; [simpl; rewrite nm_nrfn_ty; exact He|].
+  apply forallb_forall. intros [k o'] Hko.
+  apply visit_schema_t_objects in Hko. destruct Hko as [[k0 o] [Hin ->]]. simpl. rewrite nm_nrfn_ty.
+  rewrite forallb_forall in Ho. exact (Ho (k0, o) Hin).
+Qed.
+
+Lemma astn_nm pkg : forall t parent, nm_ty t = true ->
+  nm_ty (fst (astn_type pkg parent t)) = true /\ forall o, In o (snd (astn_type pkg parent t)) -> nm_ty (o_type o) = true.
+Proof.
+  induction t as [a d IH|a v IH|a vs IH|a i v IHi IHv|a dh fs IHd IHf|a pk n|a pk n v|a k v cs|a bs IH|a v|a k]
+    using ty_ind'; intros parent H; try (split; [exact H|intros o []]).
+  - rewrite astn_disj. simpl in *. apply andb_true_iff in H. destruct H as [Hm Hb]. rewrite forallb_forall in Hb. rewrite Forall_forall in IH.
+    rewrite (proj1 (astn_list_spec pkg parent _)), (proj2 (astn_list_spec pkg parent _)). split.
+    + unfold no_map in *. simpl. rewrite Hm. simpl. rewrite forallb_map. apply forallb_forall. intros b Hbin. exact (proj1 (IH b Hbin parent (Hb b Hbin))).
+    + intros o Ho. apply in_flat_map in Ho. destruct Ho as [b [Hbin Ho]]. exact (proj2 (IH b Hbin parent (Hb b Hbin)) o Ho).
+  - rewrite astn_array. simpl in *. exact (IH parent H).
+  - rewrite astn_map. simpl in *. apply andb_true_iff in H. destruct H as [H1 H2]. destruct (IHi parent H1) as [A1 A2]. destruct (IHv parent H2) as [B1 B2].
+    split; [rewrite A1, B1; reflexivity|]. intros o Ho. apply in_app_or in Ho. destruct Ho as [Ho|Ho]; [apply A2|apply B2]; exact Ho.
+  - destruct (astn_struct pkg parent a dh fs) as [ra [sa [_ E]]]. rewrite E. simpl in *. apply andb_true_iff in H. destruct H as [Hd Hf].
+    rewrite forallb_forall in Hf. rewrite Forall_forall in IHf. split; [reflexivity|].
+    rewrite (proj1 (astn_fields_spec pkg parent _)), (proj2 (astn_fields_spec pkg parent _)).
+    intros o Ho. apply in_app_or in Ho. destruct Ho as [Ho|[<-|[]]].
+    + apply in_flat_map in Ho. destruct Ho as [f [Hfin Ho]]. exact (proj2 (IHf f Hfin _ (Hf f Hfin)) o Ho).
+    + simpl. rewrite Hd. simpl. rewrite forallb_map. apply forallb_forall. intros f Hfin. simpl. exact (proj1 (IHf f Hfin _ (Hf f Hfin))).
+Qed.
+
+Lemma astn_object_nm o : nm_ty (o_type o) = true ->
+  nm_ty (o_type (fst (astn_object o))) = true /\ forall n, In n (snd (astn_object o)) -> nm_ty (o_type n) = true.
+Proof.
+  unfold astn_object. intros H.
+  destruct (o_type o) as [a d|a v|a vs|a i v|a dh fs|a pk n|a pk n v|a k v cs|a bs|a v|a k] eqn:E;
+    try (simpl; rewrite E; split; [exact H|intros n0 []]).
+  - pose proof (astn_nm (o_selfpkg o) (TDisj a d) (String.append (upper_camel_case (o_selfpkg o)) (upper_camel_case (o_name o))) H) as X.
+    destruct (astn_type _ _ (TDisj a d)). exact X.
+  - pose proof (astn_nm (o_selfpkg o) (TArray a v) (String.append (upper_camel_case (o_selfpkg o)) (upper_camel_case (o_name o))) H) as X.
+    destruct (astn_type _ _ (TArray a v)). exact X.
+  - pose proof (astn_nm (o_selfpkg o) (TMap a i v) (String.append (upper_camel_case (o_selfpkg o)) (upper_camel_case (o_name o))) H) as X.
+    destruct (astn_type _ _ (TMap a i v)). exact X.
+  - rewrite astn_object_fields. simpl in *. apply andb_true_iff in H. destruct H as [Hd Hf]. rewrite forallb_forall in Hf.
+    rewrite (proj1 (astn_fields_spec _ _ _)), (proj2 (astn_fields_spec _ _ _)). split.
+    + rewrite Hd. simpl. rewrite forallb_map. apply forallb_forall. intros f Hfin. simpl. exact (proj1 (astn_nm _ _ _ (Hf f Hfin))).
+    + intros n Hn. apply in_flat_map in Hn. destruct Hn as [f [Hfin Hn]]. exact (proj2 (astn_nm _ _ _ (Hf f Hfin)) n Hn).
+Qed.
+
+Theorem nm_astn ss : no_mappings ss = true -> no_mappings (anonymous_structs_to_named ss) = true.
+Proof.
+  unfold no_mappings, anonymous_structs_to_named. rewrite !forallb_forall. intros H s' Hs'.
+  apply in_map_iff in Hs'. destruct Hs' as [s [<- Hs]]. specialize (H s Hs). apply andb_true_iff in H. destruct H as [He Ho].
+  rewrite forallb_forall in Ho. apply andb_true_iff. split.
+  - unfold astn_schema. destruct (fold_left _ (s_objects s) ([], [])). simpl. exact He.
+  - apply forallb_forall. intros [k o'] Hko. destruct (astn_schema_objects _ _ _ Hko) as [[k0 o] [Hin Hcase]]. simpl in *.
+    destruct (astn_object_nm o (Ho (k0, o) Hin)) as [A B]. destruct Hcase as [->|Hn]; [exact A|exact (B o' Hn)].
+Qed.
+
+(* ---------- DisjunctionInferMapping only targets the names of the branches ---------- *)
+Lemma alist_set_in {V} (l : list (string * V)) k v kv : In kv (alist_set l k v) -> In kv l \/ kv = (k, v).
+Proof.
+  induction l as [|[k' v'] r IH]; simpl; intros H; [destruct H as [H|[]]; right; symmetry; exact H|].
+  destruct (String.compare k k'); simpl in H.
+  - destruct H as [H|H]; [right; symmetry; exact H|left; right; exact H].
+  - destruct H as [H|H]; [right; symmetry; exact H|left; exact H].
+  - destruct H as [H|H]; [left; left; exact H|]. destruct (IH H) as [Y|Y]; [left; right; exact Y|right; exact Y].
+Qed.
+
+Lemma dim_build_targets s disc bs m : dim_build s disc bs = Ok (Some m) -> forall kv, In kv m -> In (snd kv) (branch_names bs).
+Proof.
+  unfold dim_build. destruct (seqb disc ""); [discriminate|].
+  match goal with |- ?g bs [] = _ -> _ =>
+    assert (forall l acc m0, (forall b, In b l -> In b bs) -> (forall kv, In kv acc -> In (snd kv) (branch_names bs)) ->
+                             g l acc = Ok (Some m0) -> forall kv, In kv m0 -> In (snd kv) (branch_names bs)) as G end.
+  { induction l as [|b rest IH]; intros acc m0 Hl Hacc Hg; simpl in Hg; [inversion Hg; subst; exact Hacc|].
+    destruct (resolve s b) as [r| | |]; simpl in Hg; try discriminate.
+    assert (forall n x, b = TRef (ty_attrs b) (match b with TRef _ p _ => p | _ => EmptyString end) n -> forall kv, In kv (alist_set acc x n) -> In (snd kv) (branch_names bs)) as Hadd.
+    { intros n x Eb kv Hkv. destruct (alist_set_in _ _ _ _ Hkv) as [Y|Y]; [apply Hacc; exact Y|]. subst kv. simpl.
+      unfold branch_names. apply in_flat_map. exists b. split; [apply Hl; left; reflexivity|]. rewrite Eb. left. reflexivity. }
+    destruct r as [r|]; [|discriminate].
+    destruct r as [a1 d1|a1 v1|a1 vs1|a1 i1 v1|a1 dh1 fs1|a1 pk1 n1|a1 pk1 n1 v1|a1 k1 v1 cs1|a1 bs1|a1 v1|a1 k1]; try discriminate.
+    destruct b as [a2 d2|a2 v2|a2 vs2|a2 i2 v2|a2 dh2 fs2|a2 pk2 n2|a2 pk2 n2 v2|a2 k2 v2 cs2|a2 bs2|a2 v2|a2 k2]; try discriminate.
+    destruct (find _ fs1) as [f|]; [|discriminate].
+    destruct (f_type f) as [a3 d3|a3 v3|a3 vs3|a3 i3 v3|a3 dh3 fs3|a3 pk3 n3|a3 pk3 n3 v3|a3 k3 v3 cs3|a3 bs3|a3 v3|a3 k3]; try discriminate.
+    - destruct v3; try discriminate. eapply IH; [intros b0 Hb0; apply Hl; right; exact Hb0| |exact Hg].
+      apply (Hadd n2 s0). reflexivity.
+    - destruct v3; try discriminate. eapply IH; [intros b0 Hb0; apply Hl; right; exact Hb0| |exact Hg].
+      apply (Hadd n2 s0). reflexivity. }
+  intros Hg. refine (G bs [] m (fun b Hb => Hb) (fun kv (Hkv : In kv []) => match Hkv with end) Hg).
+Qed.
+
+Definition bm_ok (t : ty) : bool := match bad_mappings t with [] => true | _ => false end.
+Lemma is_nil_app {A} (x y : list A) : (match x ++ y with [] => true | _ => false end) = (match x with [] => true | _ => false end) && (match y with [] => true | _ => false end).
+Proof. destruct x; reflexivity. Qed.
+Lemma is_nil_flat_map {A B} (g : A -> list B) l : (match flat_map g l with [] => true | _ => false end) = forallb (fun x => match g x with [] => true | _ => false end) l.
+Proof. induction l as [|x r IH]; [reflexivity|]. simpl. rewrite is_nil_app, IH. reflexivity. Qed.
+
+Lemma dim_disj_bm s a d t1 : dim_disj s (TDisj a d) = Ok t1 -> bm_ok (TDisj a d) = true -> bm_ok t1 = true.
+Proof.
+  intros Hd Hb. unfold bm_ok in *. simpl in Hb. rewrite is_nil_app in Hb. apply andb_true_iff in Hb. destruct Hb as [Hm Hbr].
+  unfold dim_disj in Hd. destruct (negb (has_only_refs (d_branches d))); [inversion Hd; subst; simpl; rewrite is_nil_app, Hm, Hbr; reflexivity|].
+  destruct (negb (seqb (d_disc d) "") && negb match d_mapping d with [] => true | _ => false end);
+    [inversion Hd; subst; simpl; rewrite is_nil_app, Hm, Hbr; reflexivity|].
+  match type of Hd with (do _ <- ?X ; _) = _ => destruct X as [disc| | |] end; simpl in Hd; try discriminate.
+  destruct (d_mapping d) as [|kv0 rest] eqn:Emap.
+  - destruct (dim_build s disc (d_branches d)) as [[m|]| | |] eqn:Eb; simpl in Hd; try discriminate; inversion Hd; subst.
+    + cbn [bad_mappings d_branches]. rewrite is_nil_app, Hbr, andb_true_r. unfold mapping_dangling. cbn [d_mapping d_branches].
+      assert (filter (fun n => negb (existsb (seqb n) (branch_names (d_branches d)))) (map snd m) = []) as E.
+      { apply filter_nil_iff. intros n Hn. apply in_map_iff in Hn. destruct Hn as [kv [<- Hkv]]. apply negb_false_iff.
+        apply existsb_exists. exists (snd kv). split; [exact (dim_build_targets _ _ _ _ Eb kv Hkv)|apply String.eqb_refl]. }
+      rewrite E. reflexivity.
+    + cbn [bad_mappings d_branches]. rewrite is_nil_app, Hbr, andb_true_r. reflexivity.
+  - inversion Hd; subst. cbn [bad_mappings d_branches]. rewrite is_nil_app, Hbr, andb_true_r. unfold mapping_dangling in *. cbn [d_mapping d_branches] in *.
+    rewrite Emap in Hm. exact Hm.
+Qed.
+
+Lemma vrel_bm {S} (f : S -> ty -> res (ty * S)) :
+  (forall st a d t1 st1, f st (TDisj a d) = Ok (t1, st1) -> bm_ok (TDisj a d) = true -> bm_ok t1 = true) ->
+  forall st t t' st', vrel f st t t' st' -> bm_ok t = true -> bm_ok t' = true.
+Proof.
+  apply (vrel_pred f bm_ok); unfold bm_ok; simpl.
+  - reflexivity.
+  - intros a i v. apply is_nil_app.
+  - intros a bs. apply is_nil_flat_map.
+  - intros a dh fs fs' H1 H2. rewrite is_nil_app in *. apply andb_true_iff in H2. destruct H2 as [A _]. rewrite A. simpl.
+    rewrite is_nil_flat_map. exact H1.
+  - intros a dh fs H. rewrite is_nil_app in H. apply andb_true_iff in H. destruct H as [_ B]. rewrite is_nil_flat_map in B. exact B.
+Qed.
+
+Lemma mappings_ok_types ss : mappings_ok ss <-> types_all bm_ok ss = true.
+Proof.
+  unfold mappings_ok, types_all, schema_bad_mappings, bm_ok. rewrite forallb_forall. split.
+  - intros H s Hs. specialize (H s Hs). apply app_eq_nil in H. destruct H as [H1 H2]. rewrite H1. simpl.
+    apply forallb_forall. intros ko Hko. rewrite (proj1 (flat_map_nil_iff _ _) H2 ko Hko). reflexivity.
+  - intros H s Hs. specialize (H s Hs). apply andb_true_iff in H. destruct H as [H1 H2].
+    destruct (bad_mappings (s_entrytype s)); [|discriminate]. simpl. apply flat_map_nil_iff. intros ko Hko.
+    rewrite forallb_forall in H2. specialize (H2 ko Hko). destruct (bad_mappings (o_type (snd ko))); [reflexivity|discriminate].
+Qed.
+
+Theorem dim_keeps_mappings ss out : mappings_ok ss -> disjunction_infer_mapping ss = Ok out -> mappings_ok out.
+Proof.
+  intros H Hd. apply mappings_ok_types. apply mappings_ok_types in H. unfold disjunction_infer_mapping in Hd.
+  eapply (v0_types_all bm_ok dim_disj); [|exact H|exact Hd].
+  intros s t t' _ _ Hv Ht. apply visit_disj0_vrel in Hv. eapply (vrel_bm (lift0 (dim_disj s))); [|exact Hv|exact Ht].
+  intros st a d t1 st1 Hx. apply lift0_inv in Hx. eapply dim_disj_bm; exact Hx.
+Qed.
+
+Lemma no_mappings_ok ss : no_mappings ss = true -> mappings_ok ss.
+Proof.
+  intros H. apply mappings_ok_types. unfold no_mappings, types_all in *. rewrite forallb_forall in *. intros s Hs. specialize (H s Hs).
+  apply andb_true_iff in H. destruct H as [H1 H2]. unfold bm_ok. rewrite (nm_bad _ H1). simpl. apply forallb_forall. intros ko Hko.
+  rewrite forallb_forall in H2. rewrite (nm_bad _ (H2 ko Hko)). reflexivity.
+Qed.
+
+Theorem rnev_keeps_mappings ss : mappings_ok ss -> mappings_ok (rename_numeric_enum_values ss).
+Proof.
+  intros H. apply mappings_ok_types. apply mappings_ok_types in H. unfold types_all, rename_numeric_enum_values in *. rewrite forallb_forall in *.
+  intros s' Hs'. apply in_map_iff in Hs'. destruct Hs' as [s [<- Hs]]. specialize (H s Hs). apply andb_true_iff in H. destruct H as [H1 H2]. simpl.
+  rewrite H1. simpl. apply forallb_forall. intros [k o'] Hko.
+  assert (In o' (objects_of (rename_numeric_enum_values [s]))) as Hx.
+  { apply in_objects_of. eexists. exists k. split; [left; reflexivity|exact Hko]. }
+  destruct (rnev_objects _ _ Hx) as [o [Ho [E|[a [vs [vs' [_ E2]]]]]]]; simpl.
+  - rewrite E. apply in_objects_of in Ho. destruct Ho as [s0 [k0 [[<-|[]] Hk0]]]. rewrite forallb_forall in H2. exact (H2 (k0, o) Hk0).
+  - rewrite E2. reflexivity.
+Qed.
+
+(* =====================================================================================
+   THE PYTHON CHAIN keeps everything resolving when the input carries no discriminator mapping
+   ===================================================================================== *)
+Theorem python_chain_keeps_resolving ss out :
+  wf_refs_input ss -> no_mappings ss = true -> resolves ss = true -> process chain_python ss = Ok out -> resolves out = true.
+Proof.
+  intros Hwf Hnm Hr H. eapply python_chain_resolves_modulo_mappings; try eassumption.
+  unfold chain_python in H.
+  step_total H. pose proof (nm_astn _ Hnm) as M1.
+  step_total H. pose proof (nm_nrfn _ M1) as M2.
+  step_res H s3 P3. pose proof (nm_dwnto _ _ M2 P3) as M3.
+  step_res H s4 P4. pose proof (nm_docte _ _ M3 P4) as M4.
+  step_res H s5 P5. pose proof (nm_fd _ _ M4 P5) as M5.
+  step_res H s6 P6. pose proof (dim_keeps_mappings _ _ (no_mappings_ok _ M5) P6) as M6.
+  step_total H. simpl in H. inversion H; subst. apply rnev_keeps_mappings. exact M6.
+Qed.
